@@ -2,8 +2,6 @@
 (Engine A, model checking of the real Scheduler)."""
 from __future__ import annotations
 
-import os
-
 from ..core import Ctx, HarnessError, Result
 from ..sched import mon_c04
 from ..sched.catalogue import A, AND, E, N, spec_from
@@ -58,7 +56,6 @@ def _rows(tier: str):
         ('solo-P2-f5-ra1', [('P2', solo)], 5, 'P1', None),
         ('chain-P1-f3-ra1', [('P1', chain)], 3, 'P1', None),
         ('future-P1-f3-ra0', [('P1', fut)], 3, 'P0', None),
-        ('future-P1-f3-ra1', [('P1', fut)], 3, 'P1', None),
         ('two-P2-oP2-f4-ra1', [('P2', [N(a)]), ('+P1/P2', [N(b)])], 4, 'P1',
          None),
         ('two-P1-P2-f3-ra1', [('P1', [N(a)]), ('P2', [N(b)])], 3, 'P1',
@@ -82,6 +79,7 @@ def _rows(tier: str):
             ('chain-P1-f3-ra0', [('P1', chain)], 3, 'P0', None),
             ('chain-P1-f3-ra2', [('P1', chain)], 3, 'P2', None),
             ('chain-P2-f5-ra1', [('P2', chain)], 5, 'P1', None),
+            ('future-P1-f3-ra1', [('P1', fut)], 3, 'P1', None),
             ('future-P1-f3-ra2', [('P1', fut)], 3, 'P2', None),
             ('future-P2-f5-ra0', [('P2', [E(A(a, 2), b), N(a)])], 5, 'P0',
              None),
@@ -257,7 +255,11 @@ def run(ctx: Ctx) -> Result:
                 'final point<=': ctx.pick(5, 7),
                 'operator commands per execution': 1},
         assumptions=ASSUME, min_states=100,
-        extra_cov={'seam_counters': counts})
+        extra_cov={'seam_counters': counts,
+                   'seam_counters_note': (
+                       'observations summed over every execution, including '
+                       're-executed prefixes (vacuity guards, not distinct '
+                       'cases)')})
 
 
 def replay(payload):
